@@ -811,7 +811,13 @@ func (d *badgerNodeDB) Prune(version uint64) error {
 		if innerErr != nil {
 			return innerErr
 		}
-		if err != nil {
+		switch {
+		case err == nil:
+		case errors.Is(err, api.ErrRootNotFound), errors.Is(err, api.ErrNodeNotFound):
+			// A previous prune of this version was interrupted after (a part of) its batch has
+			// been flushed and before the earliest version was advanced. What is missing has
+			// been removed by that prune, so continue with removing the rest.
+		default:
 			return err
 		}
 
